@@ -128,19 +128,7 @@ def generate(prop, rng, run, tier):
     return {"workload": "edit", "property": prop, "config": cfg, "ops": gen.flatten_ops(seq)}
 
 
-# tags StepMania knows (or knew) that are not the standard key or documented alias of the
-# property under test: a key that merely looks related must stay unrelated
-LEGACY_TAGS = ["LASTBEATHINT", "LASTSECONDHINT", "FIRSTBEAT", "LASTBEAT", "FIRSTSECOND", "LASTSECOND",
-               "BGCHANGES2", "BGCHANGES3", "FGCHANGES", "ANIMATIONS", "FREEZES", "FREEZE", "STOP", "DELAYS",
-               "MUSICLENGTH", "MUSICBYTES", "SONGFILENAME", "STEPFILENAME", "HASMUSIC", "HASBANNER",
-               "DISCIMAGE", "DISC", "CDIMAGE", "JACKET", "PREVIEW", "PREVIEWVID", "LYRICSPATH", "LYRICS",
-               "MENUCOLOR", "BPM", "BPMS", "CHANGEBPM", "GAP", "FILE", "DISPLAYTITLE", "DISPLAYARTIST",
-               "CHARTNAME", "CHARTSTYLE", "STEPSTYPE", "NOTETYPE", "STEPS", "NOTES2", "NOTES3", "NOTEDATA",
-               "SAMPLESTART", "SAMPLELENGTH", "SAMPLE", "TITLETRANSLIT", "SUBTITLETRANSLIT", "ARTISTTRANSLIT",
-               "ORIGIN", "GENRE", "CREDIT", "AUTHOR", "DESCRIPTION", "DIFFICULTY", "METER", "RADARVALUES",
-               "OFFSET", "OFFSETS", "TIMESIGNATURES", "TIMESIGNATURE", "TICKCOUNTS", "TICKCOUNT", "COMBOS",
-               "WARPS", "NEGATIVEBPMS", "SPEEDS", "SCROLLS", "FAKES", "LABELS", "KEYSOUNDS", "ATTACKS",
-               "INSTRUMENTTRACK", "SELECTABLE", "DISPLAYBPM", "BACKGROUND", "BANNER", "CDTITLE", "MUSIC"]
+LEGACY_TAGS = gen.LEGACY_TAGS
 
 
 def _generate_c18(rng):
@@ -189,6 +177,10 @@ def _generate_c18(rng):
                             "..\\shared\\banner.png", "\\", "x//y", "a;b", " padded ", "150:150",
                             "heavy", "l1\nl2", "\u00e9\u3042", "0000\n0000\n", "rows\r\n", "\n",
                             "\nlead", "tab\t"])
+        if rng.random() < 0.12:
+            # the vocabulary of real files, in canonical and other spellings
+            value = rng.choice(gen.DIFFICULTIES + gen.STEPSTYPES + gen.VALUE_LIKE +
+                               ["hard", "HARD", "eDiT", "MEDIUM", "Challenge", "BEGINNER"])
         if rng.random() < 0.05:
             value = None          # what a key-only parameter (#STOPS;) loads as
         if kind == "smchart":
@@ -702,14 +694,21 @@ def check_c18_state(sc, res, sf, model, idx, op, lib, last_touched):
     if not (twin == sf and sf == twin) or (twin != sf):
         res.violate(P, "equality-disagrees-with-content", at=idx, state=_trim(want))
         return False
-    if idx % 3 == 0 and model.items:
+    if idx % 3 == 0 and (model.items or model.charts):
+        # a twin that differs in one value only - by a visible character or by white space
+        # at an edge - must not compare equal (simfile level, and inside a chart)
         other = model.clone()
-        k, v = other.items[-1]
-        other.items[-1][1] = (v or "") + "~"
-        twin2 = ops.build_real(other, lib)
-        if twin2 == sf or not (twin2 != sf):
-            res.violate(P, "equality-ignores-content", at=idx)
-            return False
+        pert = ["~", "\n", " ", "\t"][(idx // 3) % 4]
+        tgt = other.charts[0] if (other.charts and other.charts[0].items and (idx // 3) % 2) \
+            or not other.items else other
+        if tgt.items:
+            k, v = tgt.items[-1]
+            tgt.items[-1][1] = (v or "") + pert if (idx // 12) % 2 == 0 else pert + (v or "")
+            twin2 = ops.build_real(other, lib)
+            if twin2 == sf or not (twin2 != sf):
+                res.violate(P, "equality-ignores-content", at=idx, perturbation=pert,
+                            in_chart=tgt is not other)
+                return False
         if len(other.items) >= 2:
             other2 = model.clone()
             other2.items.reverse()
